@@ -67,7 +67,13 @@ Checks(r, g, j) ==
       c8 == IF r.res.tab = "cmp" /\ g.u = 0 /\ r.res.idx[1] < R.cmpn /\ g.ci # r.res.idx[1]
             THEN <<V("C03.compare", r.res.idx[1], g.ci)>> ELSE <<>>
       c9 == IF g.sl # LineAt(j, r.offset) THEN <<V("C05.starts_line", LineAt(j, r.offset), g.sl)>> ELSE <<>>
-  IN c1 \o c2 \o c3 \o c4 \o c5 \o c6 \o c7 \o c8 \o c9
+      \* compiler output indexes its tables inside their bounds: true only under the right opcode table (S14)
+      \* (1.0-1.2 have no co_varnames: fast locals live in a separate area reserved by RESERVE_FAST)
+      c10 == IF R.wf = 1 /\ r.res.tab \in {"const", "name", "varnames", "cellfree", "localsplus"}
+                /\ ~(r.res.tab = "varnames" /\ ~VGE(T, 1, 3))
+                /\ \E i \in 1..Len(r.res.idx) : r.res.idx[i] >= Len(tb)
+             THEN <<V("C09.index_range", Len(tb), r.res.idx)>> ELSE <<>>
+  IN c1 \o c2 \o c3 \o c4 \o c5 \o c6 \o c7 \o c8 \o c9 \o c10
 
 Active == tid <= Len(Traces) /\ st = "run"
 
